@@ -53,6 +53,17 @@ def generate(rng, tier):
         tree.setdefault(rel, {"t": "f", "c": gen.unique_content(rng)})
         pat_args = ["-i", pat] if rng.random() < 0.8 else ["-ii", "@M/patterns.txt"]
         env["_pat"] = pat
+    lookalike = None
+    if not pat_args and not flat and rng.random() < 0.12:
+        # a pattern anchored at the root (it has an inner separator) and an unrelated entry deeper in the tree whose last
+        # two path components read the same: only the anchored one is ignored, a change of the deep one must be noticed
+        tree.setdefault("cache", {"t": "d"})
+        tree["cache/index.db"] = {"t": "f", "c": gen.unique_content(rng)}
+        for d in ("projects", "projects/shots", "projects/shots/cache"):
+            tree.setdefault(d, {"t": "d"})
+        tree["projects/shots/cache/index.db"] = {"t": "f", "c": gen.unique_content(rng)}
+        pat_args = ["-i", rng.choice(["cache/index.db", "/cache/index.db", "cache/*.db"])]
+        lookalike = "projects/shots/cache/index.db"
     env["tree"] = tree
     ops = []
     if pat_args and pat_args[0] == "-ii":
@@ -109,6 +120,9 @@ def generate(rng, tier):
             mut = {"op": "rename", "src": d, "dst": os.path.join(os.path.dirname(d), "rend_%d" % rng.randrange(99)), "fault": "rename_dir_in_place"}
         elif kind == "rmdir" and dirs:
             mut = {"op": "rmdir", "path": rng.choice(dirs), "fault": "remove_empty_dir"}
+    if lookalike and rng.random() < 0.7:
+        mut = rng.choice([{"op": "rewrite", "path": lookalike, "seed": rng.getrandbits(30), "fault": "content_edit"},
+                          {"op": "remove", "path": lookalike, "fault": "remove_file"}])
     argv = ["verify", "@R", "-dh"]
     if common and rng.random() < 0.4:
         argv += ["-h", rng.choice(sorted(common))]
